@@ -19,6 +19,16 @@ CHECKS = {
                      "controllers, model kernel, all delivery orders, bounded duplicates/losses/timeouts/triggers) with "
                      "table, routing and status monitors on every transition, plus an exhaustive header SPI/flag "
                      "injection sweep on representative states."),
+    'C09': dict(level='model_checking', technique=MC, engine='world-explorer',
+                text="Exhaustive exploration of all interleavings of the local triggers (acquire, soft/hard expire, IKE "
+                     "rekey/delete/DPD due) at both real endpoints with every delivery order (and one loss/duplicate), "
+                     "three configurations (matching, INVALID_KE paths, refusing policies); on every transition: no "
+                     "escape from main_loop, reference transition relation, RFC 7296 2.25 notifications; from every "
+                     "state a lossless drain must end without outstanding request and with equal IKE_SA / CHILD_SA sets."),
+    'C10': dict(level='model_checking', technique=MC + " + exhaustive kernel-fault enumeration", engine='world-explorer',
+                text="The C09 state space with the model SAD compared with the tracked CHILD_SAs after every transition "
+                     "and after a drain from every state, plus one re-execution of every transition per XFRM_MSG_NEWSA "
+                     "request with that request refused (ENOMEM, EEXIST)."),
 }
 
 # filled in as checks are built; anything in ALL but not in CHECKS is listed under not_applicable
